@@ -890,6 +890,11 @@ def run_shard(shard, rec):
         rec.event('wrapped calls seen at outermost depth', mon.calls_outer)
         rec.event('wrapped calls seen nested (not asserted)', mon.calls_nested)
         rec.event('result parts inspected (non-zero)', mon.checked_parts)
+        # per-function observability: a function with 'unobserved-in-shard/<name>' == number of shards was never observed
+        # (inconclusive for that function); every shard drives every function at some of its cells
+        for name in names:
+            if not any(rec.classes.get(k + name) for k in ('observed/', 'observed-nonnumeric/', 'observed-zero-or-special/')):
+                rec.cls('unobserved-in-shard/' + name)
         mon.detach()
 
 
